@@ -130,6 +130,7 @@ def op_strategies(nparts, ngroups, profile):
                            st.integers(0, 8)).map(list),
         'down': st.tuples(st.just('down'), idx).map(list),
         'up': st.tuples(st.just('up'), idx).map(list),
+        'fdown': st.tuples(st.just('fdown'), idx).map(list),
         'freeze': st.tuples(st.just('freeze'), idx,
                             st.lists(idx, max_size=2)).map(list),
         'unfreeze': st.tuples(st.just('unfreeze'), idx).map(list),
@@ -183,6 +184,13 @@ def op_strategies(nparts, ngroups, profile):
         .map(lambda t: ['macro', [['lfreeze', t[0], []] if t[1] else
                                   ['down', t[0]],
                                   ['xmove', t[2], t[3]], ['cycle']]]),
+        # macro: a loaded server is frozen (nobody named), time passes, then
+        # it goes down
+        'freezedown': st.tuples(idx, st.sampled_from(
+            [1, 31, 601, 3601, DAY]), st.sampled_from([-5, -1, 1, 5]), idx)
+        .map(lambda t: ['macro', [['lfreeze', t[0], []], ['cycle'],
+                                  ['adv', t[1]], ['fdown', t[0]], ['cycle'],
+                                  ['adv_ret', t[3], t[2]], ['cycle']]]),
         # macro: a renewal is requested early, while the lease still runs
         'renewearly': st.tuples(idx, st.sampled_from([0, 60, 3600]))
         .map(lambda t: ['macro', [['cycle'], ['adv', t[1]] if t[1] else
@@ -219,6 +227,11 @@ def op_strategies(nparts, ngroups, profile):
         'orphanbl': st.tuples(idx, st.integers(0, 31).map(lambda v: 2 * v + 1))
         .map(lambda t: ['macro', [['rmsrv', t[0]], ['bl', t[1], True],
                                   ['cycle']]]),
+        # ... or its identity group shrinks before the next cycle
+        'orphanidg': st.tuples(idx, st.integers(0, max(0, ngroups - 1)),
+                               st.integers(0, 2))
+        .map(lambda t: ['macro', [['rmsrv', t[0]], ['idg', t[1], t[2]],
+                                  ['cycle']]]),
         # ... or unscheduled before the next cycle
         'orphanrm': st.tuples(idx, st.integers(0, 31).map(lambda v: 2 * v + 1))
         .map(lambda t: ['macro', [['rmsrv', t[0]], ['rm', t[1]],
@@ -227,6 +240,7 @@ def op_strategies(nparts, ngroups, profile):
     if not ngroups:
         ops.pop('idg')
         ops.pop('rmidg')
+        ops.pop('orphanidg')
     return ops
 
 
@@ -243,8 +257,8 @@ def flatten(ops):
 DEFAULT_WEIGHTS = {
     'app': 10, 'clone': 2, 'rm': 2, 'prio': 1, 'move': 1, 'srv': 1, 'rmsrv': 1,
     'readd': 1, 'down': 2, 'up': 2, 'downseq': 0, 'freezeflip': 0,
-    'orphanbl': 0, 'orphanrm': 0, 'stalemark': 0, 'renewearly': 0,
-    'clone2': 0, 'fill': 0, 'fillclone2': 0, 'freezepress': 0, 'notupmove': 0, 'freezework': 0, 'renewold': 0, 'freeze': 1, 'unfreeze': 1, 'bl': 1,
+    'orphanbl': 0, 'orphanrm': 0, 'orphanidg': 0, 'stalemark': 0, 'renewearly': 0,
+    'clone2': 0, 'freezedown': 0, 'fdown': 0, 'fill': 0, 'fillclone2': 0, 'freezepress': 0, 'notupmove': 0, 'freezework': 0, 'renewold': 0, 'freeze': 1, 'unfreeze': 1, 'bl': 1,
     'renew': 1, 'idg': 1, 'rmidg': 1, 'strat': 1, 'adv': 2, 'adv_ret': 1,
     'tick': 1, 'cycle': 8,
 }
@@ -469,6 +483,13 @@ def e2_op_strategies(nparts, ngroups, profile):
         # macro: allocations change, then a publication step is crashed
         'allocscrash': e2_allocs(nparts)
         .map(lambda a: ['macro', [['allocs', a], ['crashcycle']]]),
+        # macro: a bucket leaves the cell and comes back
+        'cellbounce': st.tuples(st.integers(0, 3), st.integers(0, 3))
+        .map(lambda t: ['macro', [['cellrm', t[0]], ['cycle'],
+                                  ['cellev', t[1], True], ['cycle']]]),
+        # macro: a bucket leaves the cell, then a publication step is crashed
+        'cellrmcrash': st.integers(0, 3)
+        .map(lambda p: ['macro', [['cellrm', p], ['crashcycle']]]),
         # macro: two requests about one placed instance race through
         # different watches (priority change, then delete)
         'priorm': st.tuples(idx, st.sampled_from([0, 5, 50]))
@@ -498,7 +519,7 @@ E2_WEIGHTS = {
     'down': 2, 'up': 2, 'downseq': 0, 'downrestart': 0, 'freezeflip': 0,
     'stalemark': 0, 'rmsrvrace': 0, 'priorm': 0, 'shrink': 0, 'flap': 0,
     'bouncemove': 0, 'idgrestart': 0, 'allocscrash': 0, 'blchurn': 0,
-    'dupstart': 0,
+    'dupstart': 0, 'cellrmcrash': 0, 'cellbounce': 0,
     'reboot': 1, 'resize': 1, 'shave': 1, 'repart': 1, 'reparent': 1,
     'state': 1, 'allocs': 1, 'idg': 1, 'rmidg': 1, 'bl': 1, 'blackout': 1,
     'cellev': 1, 'cellrm': 0, 'running': 1, 'adv': 2, 'adv_ret': 1, 'tickreboots': 1,
